@@ -228,6 +228,91 @@ CHECK_DEADLOCK FALSE
 """
 
 
+PATTERN_CLAUSES = {"WrongRequestSize", "WrongRequestKind", "IoWhileIdle"}
+
+
+def observables(tr):
+    """exact-trace events -> the client-visible observables of FramerOut.tla"""
+    ob = []
+
+    def o(t, **kw):
+        x = {"t": t, "cls": "", "lib": True, "raw": [], "pk": "none"}
+        x.update(kw)
+        ob.append(x)
+
+    for e in tr["ev"]:
+        if e["op"] == "call":
+            o("call")
+            continue
+        th = e["then"]
+        if th == "none":
+            continue
+        if th in ("handler", "handler-twice"):
+            for _ in range(2 if th == "handler-twice" else 1):
+                o("handler", cls=e["cls"], lib=bool(e["lib"]))
+        elif th == "raise":
+            if tr.get("hraise") and e["op"] == "read" and e["n"] == 0 and ob and ob[-1]["t"] == "handler":
+                o("hraise")
+            else:
+                o("raise", cls=e["cls"], lib=bool(e["lib"]))
+        elif th == "ret":
+            o("ret", raw=list(e["raw"]), pk=e["pk"])
+        elif th == "eof":
+            o("eof")
+        else:
+            o(str(th))
+    return ob
+
+
+OUT_CFG = """SPECIFICATION TSpec
+INVARIANT TypeOK
+INVARIANT CurShape
+INVARIANT SliceOK
+INVARIANT OnlyLibraryErrors
+INVARIANT ModeDiscipline
+CHECK_DEADLOCK FALSE
+"""
+
+
+def judge_out(recs, shards=16, heap="768m", timeout=3000):
+    """
+    Output-level validation (FramerOut.tla) of fault-free executions.
+    recs: list of {"tid", "validate", "parsed", "quit", "hraise", "stream": [...], "ob": [...]}
+    -> ({tid: (verdict, clause, pos, detail)}, results, frames)
+    """
+    if not recs:
+        return {}, [], []
+    order = sorted(recs, key=lambda t: -(len(t["stream"]) + 8 * len(t["ob"])))
+    nsh = max(1, min(shards, len(recs)))
+    buckets = [[] for _ in range(nsh)]
+    loads = [0] * nsh
+    for t in order:
+        i = loads.index(min(loads))
+        buckets[i].append(t)
+        loads[i] += len(t["stream"]) + 8 * len(t["ob"])
+    jobs = []
+    for i, b in enumerate(buckets):
+        path = os.path.join(common.scratch(), f"fout-{os.getpid()}-{id(recs) % 100000}-{i}.json")
+        with open(path, "w", encoding="utf-8") as f:
+            json.dump(b, f)
+        jobs.append(dict(module="FramerOut", cfg=OUT_CFG, env={"VERIF_TRACES": path}, heap=heap, timeout=timeout))
+    results = tlc.run_many(jobs)
+    verdicts, frames = {}, []
+    for res in results:
+        if res.invariant:
+            raise MachineryFailure(f"FramerOut: invariant {res.invariant} violated\n" + "\n".join(res.out.splitlines()[-60:]))
+        if not res.ok():
+            raise MachineryFailure("FramerOut TLC failure: " + str(res.error) + "\n" + "\n".join(res.out.splitlines()[-40:]))
+        for t in res.tuples("OVERDICT"):
+            verdicts[t[1]] = (t[2], t[3], t[4], t[5])
+        for t in res.tuples("FRAME"):
+            frames.append((t[1], t[2], bytes(t[3]), t[4]))
+    missing = [t["tid"] for t in recs if t["tid"] not in verdicts]
+    if missing:
+        raise MachineryFailure(f"FramerOut: {len(missing)} traces without verdict, e.g. {missing[:5]}")
+    return verdicts, results, frames
+
+
 def judge(traces, shards=16, heap="768m", timeout=3000):
     """traces: list of {"tid", "validate", "parsed", "quit", "ev"} -> {tid: (verdict, clause, pos, detail)}"""
     if not traces:
